@@ -30,6 +30,10 @@ struct Script {
     pool_n: usize,
     use_delay_ms: u64,
     use_reject: u64,
+    /// how many pool-level USE queries (from the first use step on) are answered with RESULT Void instead of SET_KEYSPACE
+    use_void: u64,
+    /// index of a node that owns no tokens (a zero-token node), or -1
+    zero_token: i64,
     slow_use_node: i64,
     slow_use_ms: u64,
     conn_timeout_ms: u64,
@@ -113,6 +117,8 @@ fn parse_script(v: &Value) -> Result<Script, String> {
         pool_n: v["pool"]["n"].as_u64().filter(|n| *n > 0).ok_or("pool n missing or 0")? as usize,
         use_delay_ms: v["use_delay_ms"].as_u64().unwrap_or(0),
         use_reject: v["use_reject"].as_u64().unwrap_or(0),
+        use_void: v["use_void"].as_u64().unwrap_or(0),
+        zero_token: v["zero_token"].as_i64().unwrap_or(-1),
         slow_use_node: v["slow_use_node"].as_i64().unwrap_or(-1),
         slow_use_ms: v["slow_use_ms"].as_u64().unwrap_or(0),
         conn_timeout_ms: v["conn_timeout_ms"].as_u64().unwrap_or(0),
@@ -152,7 +158,18 @@ fn mock_config(sc: &Script) -> MockConfig {
     MockConfig {
         port: PORT,
         shard_aware_port: Some(SA_PORT),
-        nodes: sc.shards.iter().enumerate().map(|(i, s)| node_cfg(i, *s)).collect(),
+        nodes: sc
+            .shards
+            .iter()
+            .enumerate()
+            .map(|(i, s)| {
+                let mut n = node_cfg(i, *s);
+                if i as i64 == sc.zero_token {
+                    n.tokens = vec![]; // a member that owns no part of the ring
+                }
+                n
+            })
+            .collect(),
         keyspaces: vec![ks("ks1"), ks("ks2"), ks("ks3")],
         system_page_size_override: None,
     }
@@ -180,9 +197,10 @@ fn use_name(text: &str) -> String {
 /// set when the script reaches its first use step (rejections / slowness apply from then on)
 static ARMED: std::sync::atomic::AtomicBool = std::sync::atomic::AtomicBool::new(false);
 
-fn make_handler(use_delay_ms: u64, reject: u64, slow_node: i64, slow_ms: u64) -> crate::mock::Handler {
+fn make_handler(use_delay_ms: u64, reject: u64, void: u64, slow_node: i64, slow_ms: u64) -> crate::mock::Handler {
     let int = type_bytes("int").expect("type int");
     let rejected = std::sync::atomic::AtomicU64::new(0);
+    let voided = std::sync::atomic::AtomicU64::new(0);
     Arc::new(move |req: &Request| -> Action {
         if req.opcode != 0x07 {
             return Action::Reply(Reply::Void);
@@ -194,6 +212,10 @@ fn make_handler(use_delay_ms: u64, reject: u64, slow_node: i64, slow_ms: u64) ->
             // pool-level USE frames only (the session is up before the first use step): reject the first `reject` of them
             if reject > 0 && ARMED.load(std::sync::atomic::Ordering::SeqCst) && rejected.fetch_add(1, std::sync::atomic::Ordering::SeqCst) < reject {
                 return Action::Reply(Reply::Error { code: 0x2200, message: "scripted: keyspace not known yet".into(), extra: vec![] });
+            }
+            // ... or answer the first `void` of them with a RESULT that is no error but does not acknowledge a keyspace either
+            if void > 0 && ARMED.load(std::sync::atomic::Ordering::SeqCst) && voided.fetch_add(1, std::sync::atomic::Ordering::SeqCst) < void {
+                return Action::Reply(Reply::Void);
             }
             let reply = Action::Reply(Reply::SetKeyspace(use_name(text)));
             if slow_node >= 0 && req.node as i64 == slow_node && ARMED.load(std::sync::atomic::Ordering::SeqCst) {
@@ -292,9 +314,17 @@ async fn one_req(session: &scylla::client::session::Session, tr: &Mutex<Tracker>
     ReqRes { uid, ok, err, issued_after_use, concurrent_use }
 }
 
-async fn one_use(session: &scylla::client::session::Session, tr: &Mutex<Tracker>, j: usize, ks: &str) -> UseRes {
+async fn one_use(session: &scylla::client::session::Session, tr: &Mutex<Tracker>, j: usize, ks: &str, raw: bool) -> UseRes {
     tr.lock().unwrap().use_start(j);
-    let r = use_res(session.use_keyspace(ks, false).await);
+    // raw: the application runs the statement `USE "<ks>"` itself (the driver follows the SET_KEYSPACE answer)
+    let r = if raw {
+        match session.query_unpaged(format!("USE \"{ks}\""), ()).await {
+            Ok(_) => UseRes { ok: true, err: String::new(), bad_name: false },
+            Err(e) => UseRes { ok: false, err: e.to_string().chars().take(200).collect(), bad_name: false },
+        }
+    } else {
+        use_res(session.use_keyspace(ks, false).await)
+    };
     tr.lock().unwrap().use_end(j, r.ok);
     r
 }
@@ -350,7 +380,7 @@ async fn run_script(sc: &Script) -> Value {
     let t0 = Instant::now();
     let mock = loop {
         crate::mock::REFUSE_NODE.store(-1, std::sync::atomic::Ordering::SeqCst);
-        match MockCluster::try_start(mock_config(sc), make_handler(sc.use_delay_ms, sc.use_reject, sc.slow_use_node, sc.slow_use_ms)).await {
+        match MockCluster::try_start(mock_config(sc), make_handler(sc.use_delay_ms, sc.use_reject, sc.use_void, sc.slow_use_node, sc.slow_use_ms)).await {
             Ok(m) => break m,
             Err(_) if t0.elapsed() < Duration::from_secs(3) => tokio::time::sleep(Duration::from_millis(50)).await,
             Err(e) => return empty_output(&sc.id, format!("mock start: {e}")),
@@ -439,7 +469,7 @@ async fn run_with_mock(sc: &Script, mock: &MockCluster) -> Value {
                 let ks = step["ks"].as_str().unwrap_or("");
                 let j = next_use;
                 next_use += 1;
-                let r = one_use(&session, &tracker, j, ks).await;
+                let r = one_use(&session, &tracker, j, ks, step["raw"].as_u64() == Some(1)).await;
                 uses.push(json!({"index": j, "ks": ks, "ok": r.ok as u8}));
                 so.use_ = Some(r);
             }
@@ -454,7 +484,7 @@ async fn run_with_mock(sc: &Script, mock: &MockCluster) -> Value {
                 let uids = take_uids(step["n"].as_u64().unwrap_or(0));
                 // The use call is polled first (it starts), then the requests, all from this task; nothing is
                 // awaited in between.
-                let (r, reqs) = tokio::join!(one_use(&session, &tracker, j, ks), futures::future::join_all(uids.iter().map(|u| one_req(&session, &tracker, *u))));
+                let (r, reqs) = tokio::join!(one_use(&session, &tracker, j, ks, false), futures::future::join_all(uids.iter().map(|u| one_req(&session, &tracker, *u))));
                 uses.push(json!({"index": j, "ks": ks, "ok": r.ok as u8}));
                 so.use_ = Some(r);
                 so.reqs = reqs;
